@@ -40,7 +40,7 @@ func run(c *hc.Ctx) {
 	for it := 0; it < n; it++ {
 		var d []float64
 		var tag string
-		switch k := c.Intn(20); {
+		switch k := c.Intn(25); {
 		case k < 4:
 			kinds := []string{"L", "LQ", "Q", "C", "LQC", "LQCZ", "QC"}[c.Intn(7)]
 			d, tag = c.GenPath(kinds, 5, 3).Data(), "builder-bezier"
@@ -53,8 +53,10 @@ func run(c *hc.Ctx) {
 			d, tag = genDegenerate(c), "raw-degenerate"
 		case k < 17:
 			d, tag = genEllipseArc(c, false), "ellipse-arc"
-		default:
+		case k < 20:
 			d, tag = genEllipseArc(c, true), "ellipse-tiny-arc"
+		default:
+			d, tag = genSegmentChain(c), "segment-chain"
 		}
 		if len(d) == 0 {
 			c.Count("skip-empty")
@@ -293,6 +295,175 @@ func genEllipseArc(c *hc.Ctx, tiny bool) []float64 {
 		}
 		d = append(d, canvas.ArcToCmd, rx, ry, phi, fl2, x0, y0, canvas.ArcToCmd)
 		c.Count("arc:closed-pair")
+	}
+	return d
+}
+
+// genSegmentChain: 2-5 arcs (optionally with lines/quads/cubics, closes and new subpaths in between) in
+// ONE path, where each arc shares some but not all of its parameters with the arc before it: same
+// rotation with another radii ratio, same radii with another rotation, same ellipse with other flags
+// or another extent, everything equal, everything new. Every arc is a genuine arc of its ellipse
+// (end points computed from centre angles, the centre follows from the current point). The extent of
+// an arc is random, or is cut between its own extreme angle and the extreme angle of a *differently
+// shaped* ellipse of the same rotation (the previous shape or a random one), so that any dependence
+// of one segment's result on parameters of another segment changes which extremes are applied.
+// Bezier segments in between likewise reuse the previous control offsets with a new end point.
+func genSegmentChain(c *hc.Ctx) []float64 {
+	type shape struct{ rx, ry, phi float64 }
+	newShape := func() shape {
+		rx := math.Round(c.Range(0.5, 20)*100) / 100
+		ry := math.Round(c.Range(0.5, 20)*100) / 100
+		switch c.Intn(6) {
+		case 0:
+			ry = rx * []float64{0.1, 0.05, 0.5, 0.9}[c.Intn(4)]
+		case 1:
+			rx, ry = math.Max(rx, ry), math.Min(rx, ry)
+		}
+		var phi float64
+		switch c.Intn(5) {
+		case 0:
+			phi = float64(c.Intn(12)) * 15 * math.Pi / 180
+		case 1:
+			phi = math.Pi / 4
+		default:
+			phi = c.Range(0, math.Pi)
+		}
+		return shape{rx, ry, phi}
+	}
+	extremes := func(sh shape) [4]float64 {
+		sin, cos := math.Sincos(sh.phi)
+		r, t := math.Atan2(-sh.ry*sin, sh.rx*cos), math.Atan2(sh.ry*cos, sh.rx*sin)
+		return [4]float64{r, r + math.Pi, t, t + math.Pi}
+	}
+	x, y := c.GenCoord(), c.GenCoord()
+	sx, sy := x, y
+	d := []float64{canvas.MoveToCmd, x, y, canvas.MoveToCmd}
+	cur := newShape()
+	prev := cur
+	var lastOff [4]float64
+	n := 2 + c.Intn(4)
+	for i := 0; i < n; i++ {
+		if i > 0 {
+			prev = cur
+			switch c.Intn(7) {
+			case 0, 1: // same rotation, other radii ratio
+				ns := newShape()
+				cur = shape{ns.rx, ns.ry, prev.phi}
+				c.Count("chain:same-phi other-radii")
+			case 2: // same rotation, radii swapped or scaled (same ratio)
+				if c.Bool() {
+					cur = shape{prev.ry, prev.rx, prev.phi}
+					c.Count("chain:same-phi radii-swapped")
+				} else {
+					k := []float64{0.5, 2, 3}[c.Intn(3)]
+					cur = shape{prev.rx * k, prev.ry * k, prev.phi}
+					c.Count("chain:same-phi same-ratio scaled")
+				}
+			case 3: // same radii, other rotation
+				cur = shape{prev.rx, prev.ry, newShape().phi}
+				c.Count("chain:same-radii other-phi")
+			case 4: // same ellipse again (other extent / flags)
+				c.Count("chain:same-ellipse")
+			default:
+				cur = newShape()
+				c.Count("chain:new-ellipse")
+			}
+			// something in between?
+			switch c.Intn(8) {
+			case 0:
+				x, y = c.GenCoord(), c.GenCoord()
+				d = append(d, canvas.LineToCmd, x, y, canvas.LineToCmd)
+			case 1:
+				ex, ey := c.GenCoord(), c.GenCoord()
+				if lastOff == [4]float64{} || c.Bool() {
+					lastOff = [4]float64{c.GenCoord(), c.GenCoord(), c.GenCoord(), c.GenCoord()}
+				}
+				d = append(d, canvas.QuadToCmd, x+lastOff[0], y+lastOff[1], ex, ey, canvas.QuadToCmd)
+				x, y = ex, ey
+			case 2:
+				ex, ey := c.GenCoord(), c.GenCoord()
+				if lastOff == [4]float64{} || c.Bool() {
+					lastOff = [4]float64{c.GenCoord(), c.GenCoord(), c.GenCoord(), c.GenCoord()}
+				}
+				d = append(d, canvas.CubeToCmd, x+lastOff[0], y+lastOff[1], ex+lastOff[2], ey+lastOff[3], ex, ey, canvas.CubeToCmd)
+				x, y = ex, ey
+			case 3:
+				d = append(d, canvas.CloseCmd, sx, sy, canvas.CloseCmd)
+				x, y = c.GenCoord(), c.GenCoord()
+				sx, sy = x, y
+				d = append(d, canvas.MoveToCmd, x, y, canvas.MoveToCmd)
+			case 4:
+				x, y = c.GenCoord(), c.GenCoord()
+				sx, sy = x, y
+				d = append(d, canvas.MoveToCmd, x, y, canvas.MoveToCmd)
+			}
+		}
+		// extent
+		var th0, th1 float64
+		switch c.Intn(3) {
+		case 0:
+			th0 = c.Range(0, 2*math.Pi)
+			th1 = th0 + c.Range(0.05, 2*math.Pi-0.05)
+			c.Count("chain-extent:random")
+		default:
+			// cut between an own extreme angle and the corresponding angle of another shape with the same rotation
+			own := extremes(cur)
+			other := shape{prev.rx, prev.ry, cur.phi}
+			if i == 0 || c.Chance(0.3) || other.rx*cur.ry == other.ry*cur.rx {
+				ns := newShape()
+				other = shape{ns.rx, ns.ry, cur.phi}
+			}
+			dec := extremes(other)
+			k := c.Intn(4)
+			a, b := own[k], dec[k]
+			diff := math.Remainder(b-a, 2*math.Pi)
+			if math.Abs(diff) < 1e-3 {
+				diff = 0.3
+			}
+			cut := a + diff*c.Range(0.3, 0.7) // between the two angles
+			far := c.Range(0.2, 2.5)
+			if c.Bool() {
+				// contains the own extreme, stops before the decoy
+				th0, th1 = cut, a-math.Copysign(far, diff)
+				c.Count("chain-extent:own-extreme-inside decoy-outside")
+			} else {
+				th0, th1 = cut, b+math.Copysign(far, diff)
+				c.Count("chain-extent:decoy-inside own-extreme-outside")
+			}
+			if math.Abs(th1-th0) > 2*math.Pi-0.05 {
+				th1 = th0 + math.Copysign(2*math.Pi-0.05, th1-th0)
+			}
+		}
+		if c.Bool() {
+			th0, th1 = th1, th0
+		}
+		sin, cos := math.Sincos(cur.phi)
+		e := func(th float64) (float64, float64) {
+			ex, ey := cur.rx*math.Cos(th), cur.ry*math.Sin(th)
+			return cos*ex - sin*ey, sin*ex + cos*ey
+		}
+		e0x, e0y := e(th0)
+		e1x, e1y := e(th1)
+		x1, y1 := x-e0x+e1x, y-e0y+e1y
+		dth := th1 - th0
+		fl := 0.0
+		if math.Abs(dth) > math.Pi {
+			fl += 1
+		}
+		if dth > 0 {
+			fl += 2
+		}
+		if cur.rx == prev.rx && cur.ry == prev.ry && cur.phi == prev.phi && i > 0 && c.Chance(0.3) {
+			// same ellipse and same end points would need the same start; instead flip one flag:
+			// still a valid SVG arc (of the mirrored / complementary ellipse position)
+			fl = float64((int(fl) + 1 + c.Intn(3)) % 4)
+			c.Count("chain:flags-changed")
+		}
+		d = append(d, canvas.ArcToCmd, cur.rx, cur.ry, cur.phi, fl, x1, y1, canvas.ArcToCmd)
+		x, y = x1, y1
+	}
+	if c.Chance(0.3) {
+		d = append(d, canvas.CloseCmd, sx, sy, canvas.CloseCmd)
 	}
 	return d
 }
@@ -679,13 +850,13 @@ func checkPath(c *hc.Ctx, d []float64, tag string, sample bool) {
 		if !(blo[a] <= pi.exact.lo[a]+tolC) || !(bhi[a] >= pi.exact.hi[a]-tolC) {
 			kind := "bounds-not-containing"
 			if a == 1 && arcThetaTopClass(pi, true, blo[a], bhi[a], tolC) && othersInside(pi, a, blo[a], bhi[a], tolC) {
-				kind = "bounds-arc-thetatop"
+				kind += ":rotated-ellipse-y" // class of the former finding C08-bounds-arc-thetatop (fixed)
 			}
 			fail(c, kind, fmt.Sprintf("Bounds %s does not contain the path: sampled %s range [%.12g, %.12g]", rectStr(bb), names[a], pi.exact.lo[a], pi.exact.hi[a]), replay)
 		} else if math.Abs(blo[a]-pi.exact.lo[a]) > tolT || math.Abs(bhi[a]-pi.exact.hi[a]) > tolT {
 			kind := "bounds-not-tight"
 			if a == 1 && arcThetaTopClass(pi, false, 0, 0, 0) {
-				kind = "bounds-arc-thetatop"
+				kind += ":rotated-ellipse-y" // class of the former finding C08-bounds-arc-thetatop (fixed)
 			}
 			fail(c, kind, fmt.Sprintf("Bounds %s is not tight: sampled %s range [%.12g, %.12g]", rectStr(bb), names[a], pi.exact.lo[a], pi.exact.hi[a]), replay)
 		}
@@ -697,7 +868,7 @@ func checkPath(c *hc.Ctx, d []float64, tag string, sample bool) {
 		if loBad || hiBad {
 			kind := "fastbounds-not-containing"
 			if hiBad && !loBad && cubicMinMaxClass(pi.segs, a, 1) && hiOnlyFromCubics(pi, a, fhi[a], tolC) {
-				kind = "fastbounds-cubic-minmax"
+				kind += ":cubic-upper-side" // class of the former finding C08-fastbounds-cubic-minmax (fixed)
 			}
 			fail(c, kind, fmt.Sprintf("FastBounds %s does not contain Bounds %s (%s axis)", rectStr(fb), rectStr(bb), names[a]), replay)
 		}
@@ -741,7 +912,7 @@ func checkPath(c *hc.Ctx, d []float64, tag string, sample bool) {
 			kind := "fastbounds-equivariance:" + t.name
 			if t.reflect && (cubicMinMaxClass(pi.segs, t.axis, 1) || cubicMinMaxClass(pi.segs, t.axis, -1)) {
 				// the asymmetric Min/Max of the CubeTo case is not reflection symmetric
-				kind = "fastbounds-cubic-minmax"
+				kind += ":cubic-upper-side" // class of the former finding C08-fastbounds-cubic-minmax (fixed)
 			}
 			fail(c, kind, fmt.Sprintf("FastBounds of the %s image is %s, image of FastBounds is %s", t.name, rectStr(fb2), rectStr(img(fb))), rp)
 		}
